@@ -49,24 +49,48 @@ func (c ImportEqCase) run(code string) (*noderun.Resp, error) {
 
 var typeAliasStmt = regexp.MustCompile(`^import \w+ = [TD]\w*(\.\w+)*;$`)
 
+// a top-level import-alias statement of the entry directly followed by another one or by a `const` statement
+var adjacentAliases = regexp.MustCompile(`(?m)^import \w+ = [A-Za-z_][\w.]*;\n(import \w+ = [A-Za-z_][\w.]*;$|const )`)
+
+// judgeImportEq judges the case and, when it fails, tries the two listed known findings as explanations:
+//   - C06-unused-import-alias-in-namespace: the failure is a ReferenceError and disappears when the unused
+//     type-only alias statements inside a namespace (which TypeScript never emits) are deleted;
+//   - C06-minify-merges-import-alias: syntax minification is on, the entry has a top-level import-alias
+//     statement directly followed by another one or by a `const` statement, the failure is a ReferenceError
+//     and disappears without minification.
+// A failure that neither (nor both together) explains is reported.
 func judgeImportEq(c ImportEqCase) vdrv.Verdict {
 	v := judgeImportEq1(c, c.Files)
-	if !v.OK && v.Discard == "" && len(c.TypeAliasInNamespace) > 0 && strings.Contains(v.Observed, "END throw:err:ReferenceError") {
-		// known finding: the failure is a ReferenceError and disappears when the unused type-only alias
-		// statements (which TypeScript never emits) are deleted from the program
-		files := map[string]string{}
+	if v.OK || v.Discard != "" || !strings.Contains(v.Observed, "END throw:err:ReferenceError") {
+		return v
+	}
+	var stripped map[string]string
+	if len(c.TypeAliasInNamespace) > 0 {
+		stripped = map[string]string{}
 		for k, s := range c.Files {
-			files[k] = s
+			stripped[k] = s
 		}
 		for _, st := range c.TypeAliasInNamespace {
 			if !typeAliasStmt.MatchString(st) {
 				return v
 			}
-			files["main.ts"] = strings.Replace(files["main.ts"], st, "", 1)
+			stripped["main.ts"] = strings.Replace(stripped["main.ts"], st, "", 1)
 		}
-		if w := judgeImportEq1(c, files); w.OK && w.Discard == "" {
-			v.Known = "C06-unused-import-alias-in-namespace"
-		}
+	}
+	unminified := c
+	unminified.Minify = ""
+	merges := c.Minify != "" && adjacentAliases.MatchString(c.Files["main.ts"])
+	passes := func(cc ImportEqCase, files map[string]string) bool {
+		w := judgeImportEq1(cc, files)
+		return w.OK && w.Discard == ""
+	}
+	switch {
+	case stripped != nil && passes(c, stripped):
+		v.Known = "C06-unused-import-alias-in-namespace"
+	case merges && passes(unminified, c.Files):
+		v.Known = "C06-minify-merges-import-alias"
+	case stripped != nil && merges && passes(unminified, stripped):
+		v.Known = "C06-unused-import-alias-in-namespace"
 	}
 	return v
 }
@@ -127,6 +151,7 @@ type ieModule struct {
 	name    string // "./m1"
 	ts, ref string
 	use     func(alias string) string // statements (valid both as TS and JS) that observe the required value
+	esm     bool                      // uses ES exports: the required value is a module namespace (emulation), observed through members only
 }
 
 func (g *ieGen) module(name string, deps []ieModule, externals []string) ieModule {
@@ -181,6 +206,7 @@ func (g *ieGen) module(name string, deps []ieModule, externals []string) ieModul
 			return fmt.Sprintf("log(\"%s\", %s.a, %s.f()); %s.inc(); log(\"%s counter\", %s.counter);", name, a, a, a, name, a)
 		}
 		g.feat("require-of-es-module")
+		m.esm = true
 	}
 	m.ts, m.ref = ts.String(), ref.String()
 	return m
@@ -384,9 +410,11 @@ func genImportEqCase(rt *rapid.T) ImportEqCase {
 		alias := fmt.Sprintf("r%d", i+1)
 		var spec, load string
 		var use func(string) string
+		exportable := true
 		if len(mods) > 0 && g.chance("internal", 65) {
 			m := mods[g.n("whichmod", len(mods))]
 			spec, load, use = m.name, fmt.Sprintf("__load(%q)", m.name), m.use
+			exportable = !m.esm // the shape of a namespace object (getters or data properties) is not part of the property
 			g.feat("require-internal")
 		} else {
 			e := externals[g.n("whichext", 2)]
@@ -394,7 +422,7 @@ func genImportEqCase(rt *rapid.T) ImportEqCase {
 			g.feat("require-external")
 		}
 		export := ""
-		if !hasExportEquals && g.chance("exportimport", 15) {
+		if !hasExportEquals && exportable && g.chance("exportimport", 15) {
 			export = "export "
 			g.feat("export-import-require")
 		}
